@@ -443,6 +443,15 @@ impl SymbolTable {
         self.enter_scope(scope_type)
     }
 
+    /// Public wrapper of the crate-private `standard_library_gates`: binds the
+    /// standard library in the current scope, returns the names that collided.
+    pub fn verif_standard_library_gates(&mut self) -> Vec<String> {
+        self.standard_library_gates()
+            .into_iter()
+            .map(String::from)
+            .collect()
+    }
+
     /// Number of currently open scopes (1 when only the global scope is open).
     pub fn verif_scope_depth(&self) -> usize {
         self.number_of_scopes()
